@@ -18,7 +18,7 @@
 EXTENDS I64
 
 \* ------------------------------------------------------------------ powers of two (magnitudes), bit length
-TMAX == 460
+TMAX == 2400
 RECURSIVE P2Build(_, _)
 P2Build(acc, k) == IF k > TMAX THEN acc ELSE P2Build(Append(acc, MAdd(acc[k], acc[k])), k + 1)
 \* TLC re-evaluates a definition that depends on a RECURSIVE operator at every use, so the table is computed once,
